@@ -55,6 +55,10 @@ func c15Case(c *core.Case) {
 		// exactly one punctuation character written as another
 		src = gen.SwapPunct(r, seed)
 		c.Count("mutation:one-punctuation-swap")
+	case k < 3:
+		// exactly one keyword replaced by another word
+		src = gen.SwapKeyword(r, seed)
+		c.Count("mutation:one-keyword-swap")
 	case k < 8:
 		src = gen.Mutate(r, seed, 6)
 	}
@@ -180,10 +184,22 @@ func dumpSyntaxBody(b *hclsyntax.Body, sb *strings.Builder) {
 }
 
 func hasSyntaxErrorExpr(b *hclsyntax.Body) bool {
+	return hasPlaceholder(b)
+}
+
+// hasPlaceholder finds what the parser leaves where it could not build an
+// expression: an ExprSyntaxError node, or a literal whose value is unknown (no
+// literal of the language denotes an unknown value).
+func hasPlaceholder(n hclsyntax.Node) bool {
 	found := false
-	hclsyntax.VisitAll(b, func(n hclsyntax.Node) hcl.Diagnostics {
-		if _, ok := n.(*hclsyntax.ExprSyntaxError); ok {
+	hclsyntax.VisitAll(n, func(n hclsyntax.Node) hcl.Diagnostics {
+		switch t := n.(type) {
+		case *hclsyntax.ExprSyntaxError:
 			found = true
+		case *hclsyntax.LiteralValueExpr:
+			if t.Val == cty.NilVal || !t.Val.IsKnown() {
+				found = true
+			}
 		}
 		return nil
 	})
@@ -281,8 +297,8 @@ func c15Run(c *core.Case, src []byte, isJSON bool) bool {
 			return dumpExpr(e), d, e != nil
 		})
 		if ex != nil {
-			if _, bad := ex.(*hclsyntax.ExprSyntaxError); bad && !exd.HasErrors() {
-				c.Violation("unusable-without-error/hclsyntax.ParseExpression", "ExprSyntaxError returned without an error diagnostic", nil)
+			if hasPlaceholder(ex) && !exd.HasErrors() {
+				c.Violation("unusable-without-error/hclsyntax.ParseExpression", "a placeholder (ExprSyntaxError or unknown literal) was returned without an error diagnostic", nil)
 			}
 			if !exd.HasErrors() {
 				cleanExprs = append(cleanExprs, exprItem{ex, false})
@@ -295,6 +311,9 @@ func c15Run(c *core.Case, src []byte, isJSON bool) bool {
 			return dumpExpr(e), d, e != nil
 		})
 		if tx != nil && !txd.HasErrors() {
+			if hasPlaceholder(tx) {
+				c.Violation("unusable-without-error/hclsyntax.ParseTemplate", "a placeholder (ExprSyntaxError or unknown literal) was returned without an error diagnostic", nil)
+			}
 			cleanExprs = append(cleanExprs, exprItem{tx, false})
 		}
 		// traversal parsers: feed them the first line (they take short inputs)
